@@ -26,14 +26,29 @@ def load_programs(tier, wanted=None):
         cfgs = [c for c in cfgs if label(*c) in wanted or c[0] in wanted]
     out = []
 
+    skipped = []
+
     def one(c):
-        f, m = facts.extract(c[0], release=c[1])
-        return label(*c), Program(f, m)
+        try:
+            f, m = facts.extract(c[0], release=c[1])
+        except facts.FactsError as e:
+            if c == ("default", False):
+                raise
+            # a feature configuration other than the default one does not build: analyse the ones that do and say so
+            return label(*c), None, str(e)
+        return label(*c), Program(f, m), None
 
     with ThreadPoolExecutor(max_workers=min(6, len(cfgs))) as ex:
-        for lab, p in ex.map(one, cfgs):
-            out.append((lab, p))
+        for lab, p, err in ex.map(one, cfgs):
+            if p is None:
+                skipped.append((lab, err))
+            else:
+                out.append((lab, p))
+    load_programs.skipped = skipped
     return out
+
+
+load_programs.skipped = []
 
 
 def module_for(prop):
@@ -52,6 +67,9 @@ def run(prop, tier):
         print("HARNESS-ERROR: could not extract facts from /repo's working tree:\n" + str(e), file=sys.stderr)
         return 3
     rc = 0
+    for lab, err in load_programs.skipped:
+        print(f"CONFIG-SKIPPED: fact base {lab} does not build on the working tree; the remaining fact bases are analysed\n  " +
+              "\n  ".join(l for l in err.strip().splitlines() if l.startswith("error"))[:600], file=sys.stderr)
     for p in props:
         try:
             mod = module_for(p)
@@ -60,6 +78,9 @@ def run(prop, tier):
                 continue
             raise
         ctx = Ctx(p, tier, level=getattr(mod, "LEVEL", "other"))
+        for lab, err in load_programs.skipped:
+            ctx.note(f"fact base {lab} NOT ANALYSED: the working tree does not build in this feature configuration "
+                     f"({err.strip().splitlines()[-1][:160] if err.strip() else 'build failed'})")
         for lab, P in progs:
             ctx.configs.append(dict(P.meta, label=lab))
         try:
